@@ -1,5 +1,6 @@
 import SLE.Driver.Util
 import SLE.Driver.UnifyD
+import SLE.Spec.EVM
 /-! Oracles for families `pipeline` and `orders` (no model answer: these families are
 oracle-only until the type-checking pipeline is modelled end to end). -/
 namespace SLE.Driver.PipelineD
@@ -61,7 +62,17 @@ def oracleC12 (es : List Entry) : List String :=
 
 def verdictOf (segs : List String) : String := if segs.isEmpty then "ok" else "FAIL " ++ " ;; ".intercalate segs
 
-def handle (_payload impl : String) : String × String :=
+/-- C05 on whole programs: code without any SLOAD / SSTORE instruction has an empty layout -/
+def oracleC05 (payload : String) (es : List Entry) : List String :=
+  match hexBytes? ((words payload).getLast?.getD "") with
+  | none => []
+  | some bytes =>
+    let code := bytes.toArray
+    let data := EVM.pushData code (code.size + 1) 0 []
+    let touches := (List.range bytes.length).any (fun i => (bytes.getD i 0 == 0x54 || bytes.getD i 0 == 0x55) && !(data.contains i))
+    if !touches && !es.isEmpty then [s!"C05-storage-free-program-has-slots:0x{natHex (es.headD ⟨0, 0, ""⟩).index}"] else []
+
+def handle (payload impl : String) : String × String :=
   let segs :=
     if impl.startsWith "PANIC" then ["C01-panic:" ++ impl]
     else if impl.startsWith "res=err" then
@@ -69,7 +80,7 @@ def handle (_payload impl : String) : String × String :=
          [(if (impl.splitOn "U.StoppedByWatchdog").length > 1 then "C03-analysis-does-not-halt:unification"
            else "C03-analysis-does-not-halt:execution")] else [])
     else match parseLayout impl with
-      | some es => oracleC12 es
+      | some es => oracleC12 es ++ oracleC05 payload es
       | none => ["unparsable-impl-answer"]
   ("n/a", verdictOf segs)
 
